@@ -12,7 +12,7 @@ EXTENDS ConstExpr
 
 CONSTANTS Leaves,      \* integer leaf values
           UnOps,       \* subset of {"+", "-", "~", "!"}
-          Casts,       \* subset of {"int", "bool", "char"}
+          Casts,       \* subset of {"int", "bool", "char", "short"}
           BinOps,      \* subset of AllBinOps
           UseCond,     \* BOOLEAN: generate ?:
           MaxTok,      \* bound on the number of postfix tokens
@@ -123,7 +123,7 @@ AddLaw ==
         => Div(Top(0).v, R) = Ok(L))
 
 \* the minimal rendering never has more tokens than the full one, and both keep the leaves in order
-Punct == AllBinOps \cup {"(", ")", "?", ":", "~", "!", "int", "bool", "char"}
+Punct == AllBinOps \cup {"(", ")", "?", ":", "~", "!", "int", "bool", "char", "short"}
 Leaf(s) == SelectSeq(s, LAMBDA x : x \notin Punct)
 RenderLaw ==
   \A i \in 1..N : /\ Len(Toks(stk[i].t)) <= Len(FullToks(stk[i].t))
